@@ -658,6 +658,7 @@ def run_inventory(F, rep, tier, pid, roots, floors, what):
     nsites = 0
     by_rule = defaultdict(int)
     used_audits = set()
+    pending = []
     for n in sorted(seen):
         ss = g1_panic.collect_sites(F, n)
         if not ss:
@@ -700,13 +701,35 @@ def run_inventory(F, rep, tier, pid, roots, floors, what):
                 au = audits[cands[0]]
                 lost = [g for g in au.get("guards", []) if g not in sigs] or [g for g in au.get("rguards", []) if g not in rg]
                 if lost:
-                    rep.violation(r1, key, "audited site lost its guard(s) %s (audit: %s); reachable via %s" % (lost, au["reason"], path_text(G, pred, n)), where)
+                    msg = "audited site lost its guard(s) %s (audit: %s); reachable via %s" % (lost, au["reason"], path_text(G, pred, n))
                 else:
-                    rep.violation(r1, key, "the operands of an audited site changed: the audit (%s) was written for %s, the site now computes %s; reachable via %s"
-                                  % (au["reason"][:160], au.get("ops"), opsig, path_text(G, pred, n)), where)
-                continue
-            rep.violation(r1, key, "%s %s in %s is neither discharged nor audited (guards in force: %s); reachable via %s"
-                          % (s.kind, s.what, n, sorted(sigs)[:6], path_text(G, pred, n)), where)
+                    msg = ("the operands of an audited site changed: the audit (%s) was written for %s, the site now computes %s; reachable via %s"
+                           % (au["reason"][:160], au.get("ops"), opsig, path_text(G, pred, n)))
+            else:
+                msg = ("%s %s in %s is neither discharged nor audited (guards in force: %s); reachable via %s"
+                       % (s.kind, s.what, n, sorted(sigs)[:6], path_text(G, pred, n)))
+            pending.append((key, msg, where, b["_crate"], key.split("|", 1)[1].rsplit("#", 1)[0], opsig, rg, sigs))
+    # a site that moved to another function (extract / inline function, closure <-> body) keeps its audit when it is the same computation under the
+    # same tests: same kind and callee, same canonical operands, and all recorded guards in force - matched against audits no other site used
+    leftovers = {}
+    for k, au in audits.items():
+        if k in used_audits or "ops" not in au:
+            continue
+        leftovers.setdefault((k.split("|", 1)[1].rsplit("#", 1)[0], json.dumps(au["ops"])), []).append(k)
+    for key, msg, where, crate, kw, opsig, rg, sigs in pending:
+        hit = None
+        for k in leftovers.get((kw, json.dumps(opsig)), []):
+            au = audits[k]
+            same_file = au.get("file") is not None and where is not None and au["file"] == where.rsplit(":", 1)[0]
+            if k not in used_audits and same_file and all(g in sigs for g in au.get("guards", [])) and all(g in rg for g in au.get("rguards", [])):
+                hit = k
+                break
+        if hit is not None:
+            used_audits.add(hit)
+            by_rule["audited"] += 1
+            rep.ok(r1, key, audits[hit]["reason"] + " [audit of %s: same computation under the same tests, moved]" % hit.split("|")[0].split("::")[-1], how="audited")
+        else:
+            rep.violation(r1, key, msg, where)
     rep.analysed.update(dict(entry_points=len(roots), reachable_bodies=len(seen), panic_capable_sites=nsites, discharged_by_rule=dict(by_rule),
                              assumed_total_externals=len({p for n in seen for (p, _, _, _) in G.ext_calls.get(n, ()) if p and not g1_panic.panic_api(p)})))
     rep.floor(r1, "reachable bodies", len(seen), floors["bodies"])
